@@ -448,6 +448,18 @@ pub fn run(cfg: &Cfg) -> Stats {
                 }
             }
         }
+        // long renderings: every effect set with maximal RGB foreground and background and each kind of underline colour
+        // (buffers and length estimates sized for the common case)
+        for bits in 0..4096u16 {
+            if !mine() {
+                continue;
+            }
+            let big = Some(Col::Rgb(255, 128, 200));
+            for ul in [None, Some(Col::P16((bits % 16) as u8)), Some(Col::Idx(200 + (bits % 56) as u8)), Some(Col::Rgb(255, 255, 255))] {
+                eval_style(SgrState { fg: big, bg: Some(Col::Rgb(100, 255, 199)), ul, fx: bits }, false, &mut st, true);
+            }
+            eval_style(SgrState { fg: Some(Col::Idx(255)), bg: big, ul: Some(Col::P16(15 - (bits % 16) as u8)), fx: bits }, false, &mut st, true);
+        }
         // single effects and pairs of effects with every pair of palette colours in (fg, bg)
         for a in 0..12u16 {
             for b in a..12u16 {
@@ -498,7 +510,7 @@ pub fn run(cfg: &Cfg) -> Stats {
         st
     });
     st.exhaustive_parts.push(format!(
-        "all 4096 effect sets; all 16 palette and 256 indexed colours in each of the three slots; all 256 values of each RGB component in each slot; all 256 greys and all two-equal-component patterns in each slot; all 4096 effect sets x 16 palette foregrounds{}; all single effects and pairs of effects x 16 x 16 palette (fg, bg) pairs{}",
+        "all 4096 effect sets; all 16 palette and 256 indexed colours in each of the three slots; all 256 values of each RGB component in each slot; all 256 greys and all two-equal-component patterns in each slot; all 4096 effect sets x 16 palette foregrounds{}; all single effects and pairs of effects x 16 x 16 palette (fg, bg) pairs; all 4096 effect sets with three-digit RGB foreground / background and each kind of underline colour{}",
         if cross_all_slots { " (and backgrounds, underline colours, fg+bg pairs, indexed 0-15)" } else { "" },
         if full_rgb { "; all 2^24 RGB colours through the colour renderers" } else { "" }
     ));
